@@ -867,6 +867,174 @@ def eig_cases(chk, st, rng, only):
                 st["expect"].append((cell, "value", got.double(), {"cell": cell, "seed": chk.seed, "tier": chk.tier}, None))
 
 
+# ------------------------------------------------------------------------------------------------ session 5: batch-broadcast rhs index maps
+def _shp(s):
+    return "s" + "x".join(map(str, s))
+
+
+def _prod(s):
+    r = 1
+    for k in s:
+        r *= k
+    return r
+
+
+BCAST_SHAPES_QUICK = [((2, 1), (3,)), ((2,), ()), ((), (2,)), ((1,), (3,)), ((3,), (1,)), ((2, 1), (1, 3)), ((1, 2), (2, 1)),
+                      ((2,), (3, 2)), ((2, 3), (3,)), ((2,), (3,)), ((2, 1), (3, 2))]
+BCAST_SHAPES_MORE = [((1, 1), (2,)), ((2, 1, 2), (3, 1)), ((3,), (2, 1)), ((2, 2), (2, 2)), ((1,), ()), ((), (1, 2)), ((2, 3), (2, 1)),
+                     ((2, 3), (3, 2)), ((4,), (2, 1))]
+
+
+def bcast_cases(chk, st, rng, only):
+    """Operator batch `sA` x rhs batch `sB` (size-1 dims, missing leading dims, non-broadcastable pairs) for the direct solve paths and
+    the Kronecker loop, with a left factor of batch `sL`: library vs the Lean flat-buffer model (`solveBroadcastFlat`, `kronSolveBroadcastFlat`,
+    `leftBroadcastFlat`: which operator / rhs member each output member reads) vs dense torch.linalg.solve on the expanded tensors."""
+    from linear_operator import to_linear_operator
+    from linear_operator.operators import (BatchRepeatLinearOperator, CholLinearOperator, DiagLinearOperator,
+                                           KroneckerProductLinearOperator, TriangularLinearOperator)
+    dt = F64
+    shapes = BCAST_SHAPES_QUICK + (BCAST_SHAPES_MORE if chk.tier != "quick" else [rng.choice(BCAST_SHAPES_MORE)])
+    c = 2
+
+    def tri(batch, n):
+        return torch.tril(C.ri(rng, (*batch, n, n), -2, 2, dt), -1) + torch.diag_embed(C.ri(rng, (*batch, n), 1, 2, dt))
+
+    def inv_rows(dense):
+        return ";".join(fmt_mat(frac_inv(to_frac_rows(m))) for m in dense.reshape(-1, dense.shape[-2], dense.shape[-1]))
+
+    def stack(t):
+        return fm(t.reshape(-1, t.shape[-1]))
+
+    def bshape(a, b):
+        try:
+            return tuple(torch.broadcast_shapes(a, b))
+        except RuntimeError:
+            return None
+
+    jobs = []   # (cell, line, fn, spec)
+    for sA, sB in shapes:
+        out = bshape(sA, sB)
+        n = rng.choice([2, 3])
+        tagb = f"sA={_shp(sA)}|sB={_shp(sB)}"
+        B = C.ri(rng, (*sB, n, c), -3, 3, dt)
+
+        def spec_of(A, B=B, out=out, n=n):
+            return None if out is None else torch.linalg.solve(A.expand(*out, n, n), B.expand(*out, n, c)).reshape(-1, c)
+        # generic Cholesky path (torch.cholesky_solve broadcasting)
+        A = C.psd_int(rng, sA, n, dt)
+        jobs.append((f"C04/bcast/Dense[{tagb}|n={n}]/solve", f"bcastsolve {n} {c} {_shp(sA)} {_shp(sB)} {inv_rows(A)} {stack(B)}",
+                     lambda A=A, B=B: to_linear_operator(A.clone()).solve(B), spec_of(A)))
+        L = tri(sA, n)
+        A = L @ L.mT
+        jobs.append((f"C04/bcast/Chol[{tagb}|n={n}]/solve", f"bcastsolve {n} {c} {_shp(sA)} {_shp(sB)} {inv_rows(A)} {stack(B)}",
+                     lambda L=L, B=B: CholLinearOperator(TriangularLinearOperator(L.clone())).solve(B), spec_of(A)))
+        jobs.append((f"C04/bcast/Triangular[{tagb}|n={n}]/solve", f"bcastsolve {n} {c} {_shp(sA)} {_shp(sB)} {inv_rows(L)} {stack(B)}",
+                     lambda L=L, B=B: TriangularLinearOperator(L.clone()).solve(B), spec_of(L)))
+        d = 2.0 ** C.ri(rng, (*sA, n), -1, 2, dt)
+        jobs.append((f"C04/bcast/Diag[{tagb}|n={n}]/solve", f"bcastsolve {n} {c} {_shp(sA)} {_shp(sB)} {inv_rows(torch.diag_embed(d))} {stack(B)}",
+                     lambda d=d, B=B: DiagLinearOperator(d.clone()).solve(B), spec_of(torch.diag_embed(d))))
+        # BatchRepeat over the leading operator batch dimension: member p of the operator batch is base member p % b
+        if len(sA) >= 1 and sA[0] % 2 == 0:
+            bb = (sA[0] // 2, *sA[1:])
+            base = C.psd_int(rng, bb, n, dt)
+            A = base.repeat(2, *([1] * (len(sA) - 1)), 1, 1)
+            jobs.append((f"C04/bcast/BatchRepeat[{tagb}|n={n}]/solve", f"bcastsolve {n} {c} {_shp(sA)} {_shp(sB)} {inv_rows(A)} {stack(B)}",
+                         lambda base=base, B=B, sA=sA: BatchRepeatLinearOperator(
+                             to_linear_operator(base.clone()), torch.Size((2, *([1] * (len(sA) - 1))))).solve(B), spec_of(A)))
+        # Kronecker loop: rhs.expand(*batch_shape, …) then reshape / factor solve / permute
+        n1, n2 = rng.choice([(2, 3), (3, 2), (2, 2)])
+        K1, K2 = C.psd_int(rng, sA, n1, dt), C.psd_int(rng, sA, n2, dt)
+        X = C.ri(rng, (*sB, n1 * n2, c), -3, 3, dt)
+        kd = torch.einsum("...ij,...kl->...ikjl", K1, K2).reshape(*sA, n1 * n2, n1 * n2)
+        ksp = None if out is None else torch.linalg.solve(kd.expand(*out, n1 * n2, n1 * n2), X.expand(*out, n1 * n2, c)).reshape(-1, c)
+        for ep in ("solve", "_solve"):
+            jobs.append((f"C04/bcast/Kronecker[{tagb}|n1={n1}|n2={n2}]/{ep}",
+                         f"bcastkron {n1} {n2} {c} {_shp(sA)} {_shp(sB)} {inv_rows(K1)} {inv_rows(K2)} {stack(X)}",
+                         lambda K1=K1, K2=K2, X=X, ep=ep: getattr(KroneckerProductLinearOperator(K1.clone(), K2.clone()), ep)(X), ksp))
+        # left factor: the generic path concatenates [Lᵀ | R] (so sL = sB); Diag.solve multiplies afterwards (any broadcastable sL)
+        if out is not None:
+            o = 2
+            for cls, sL in (("Dense", sB), ("Diag", sB), ("Diag", (2, *([1] * len(out)))), ("Diag", ())):
+                out2 = bshape(sL, out)
+                Lf = C.ri(rng, (*sL, o, n), -2, 2, dt)
+                if cls == "Dense":
+                    A = C.psd_int(rng, sA, n, dt)
+                    fn = lambda A=A, B=B, Lf=Lf: to_linear_operator(A.clone()).solve(B, Lf)  # noqa
+                else:
+                    dd = 2.0 ** C.ri(rng, (*sA, n), -1, 2, dt)
+                    A = torch.diag_embed(dd)
+                    fn = lambda dd=dd, B=B, Lf=Lf: DiagLinearOperator(dd.clone()).solve(B, Lf)  # noqa
+                sp = (Lf.expand(*out2, o, n) @ torch.linalg.solve(A.expand(*out2, n, n), B.expand(*out2, n, c))).reshape(-1, c)
+                jobs.append((f"C04/bcast/{cls}[{tagb}|sL={_shp(sL)}|n={n}]/solve-left",
+                             f"bcastleft {n} {c} {o} {_shp(sA)} {_shp(sB)} {_shp(sL)} {inv_rows(A)} {stack(B)} {stack(Lf)}", fn, sp))
+    # Triangular over a BatchRepeat of (batched) triangular factors — what BatchRepeat(PD).cholesky() returns; its solve() must fold the
+    # repeats like BatchRepeat._cholesky_solve.  `samedim=1`: the base is batched (size > 1) along a dimension that is also repeated.
+    for bsh, rep, sB in [((2,), (3,), (6,)), ((2,), (3,), ()), ((1,), (3,), (3,)), ((2,), (2, 1), (2, 2)), ((), (3,), (1,)), ((2,), (3,), (2, 6)),
+                         ((2, 2), (1, 2), (1, 4))]:
+        n = rng.choice([2, 3])
+        pad = (1,) * (len(rep) - len(bsh)) + tuple(bsh)
+        same = int(any(r_ > 1 and b_ > 1 for r_, b_ in zip(rep, pad)))
+        sA = tuple(r_ * b_ for r_, b_ in zip(rep, pad))
+        out = bshape(sA, sB)
+        Lb = tri(bsh, n)
+        Lrep = Lb.repeat(*rep, 1, 1)
+        B = C.ri(rng, (*sB, n, c), -3, 3, dt)
+        sp = torch.linalg.solve_triangular(Lrep.expand(*out, n, n), B.expand(*out, n, c), upper=False).reshape(-1, c)
+        tagb = f"base={_shp(bsh)}|rep={_shp(rep)}|sB={_shp(sB)}|samedim={same}"
+        line = f"bcastsolve {n} {c} {_shp(sA)} {_shp(sB)} {inv_rows(Lrep)} {stack(B)}"
+        jobs.append((f"C04/bcast/Triangular(BatchRepeat(tri))[{tagb}]/solve", line,
+                     lambda Lb=Lb, rep=rep, B=B: TriangularLinearOperator(BatchRepeatLinearOperator(
+                         TriangularLinearOperator(Lb.clone()), torch.Size(rep))).solve(B), sp))
+        jobs.append((f"C04/bcast/BatchRepeat(Dense).cholesky()[{tagb}]/solve", line,
+                     lambda Lb=Lb, rep=rep, B=B: BatchRepeatLinearOperator(
+                         to_linear_operator(Lb @ Lb.mT), torch.Size(rep)).cholesky().solve(B), sp))
+        Arep = Lrep @ Lrep.mT
+        spd = torch.linalg.solve(Arep.expand(*out, n, n), B.expand(*out, n, c)).reshape(-1, c)
+        lined = f"bcastsolve {n} {c} {_shp(sA)} {_shp(sB)} {inv_rows(Arep)} {stack(B)}"
+        jobs.append((f"C04/bcast/BatchRepeat(Dense)[{tagb}]/solve", lined,
+                     lambda Lb=Lb, rep=rep, B=B: BatchRepeatLinearOperator(to_linear_operator(Lb @ Lb.mT), torch.Size(rep)).solve(B), spd))
+        jobs.append((f"C04/bcast/BatchRepeat(Chol)[{tagb}]/solve", lined,
+                     lambda Lb=Lb, rep=rep, B=B: BatchRepeatLinearOperator(
+                         CholLinearOperator(TriangularLinearOperator(Lb.clone())), torch.Size(rep)).solve(B), spd))
+        jobs.append((f"C04/bcast/BatchRepeat(tri)[{tagb}]/_cholesky_solve", lined,
+                     lambda Lb=Lb, rep=rep, B=B: BatchRepeatLinearOperator(
+                         TriangularLinearOperator(Lb.clone()), torch.Size(rep))._cholesky_solve(B), spd))
+        Lf = C.ri(rng, (*sB, 2, n), -2, 2, dt)
+        jobs.append((f"C04/bcast/Triangular(BatchRepeat(tri))[{tagb}]/solve-left",
+                     f"bcastleft {n} {c} 2 {_shp(sA)} {_shp(sB)} {_shp(sB)} {inv_rows(Lrep)} {stack(B)} {stack(Lf)}",
+                     lambda Lb=Lb, rep=rep, B=B, Lf=Lf: TriangularLinearOperator(BatchRepeatLinearOperator(
+                         TriangularLinearOperator(Lb.clone()), torch.Size(rep))).solve(B, Lf),
+                     (Lf.expand(*out, 2, n) @ sp.reshape(*out, n, c)).reshape(-1, c)))
+    for cell, line, fn, spec in jobs:
+        if only and only != cell:
+            continue
+        payload = {"cell": cell, "seed": chk.seed, "tier": chk.tier}
+        chk.case(cell + " " + line[:160], nontrivial=True)
+        chk.count("bcast/" + cell.split("/")[2].split("[")[0])
+        try:
+            got = fn()
+        except Exception as e:  # noqa
+            if spec is None and isinstance(e, RuntimeError):
+                st["lines"].append(line)
+                st["expect"].append((cell, "value", "shape-error", payload, None))
+            else:
+                chk.violation(cell + f"/exception:{type(e).__name__}", f"{type(e).__name__}: {str(e)[:200]}", payload)
+            continue
+        if spec is None:
+            chk.violation(cell + "/shape", f"batch shapes do not broadcast but solve returned a tensor of shape {tuple(got.shape)}", payload)
+            continue
+        got2 = got.double().reshape(-1, got.shape[-1])
+        if got2.shape != spec.shape:
+            chk.violation(cell + "/shape", f"result shape {tuple(got.shape)}: {got2.shape[0]} stacked rows, dense solve on the expanded tensors has {spec.shape[0]}", payload)
+            continue
+        err = float((got2 - spec).abs().max())
+        if not err <= 1e-9 * max(1.0, float(spec.abs().max())):
+            chk.violation(cell + "/value", f"differs from torch.linalg.solve on the expanded dense tensors by {err:.3g}", payload)
+            continue
+        st["lines"].append(line)
+        st["expect"].append((cell, "value", got2, payload, None))
+
+
 # ------------------------------------------------------------------------------------------------ update 4: which algorithm ran (decision function)
 def cls_token(x):
     """Lean `OpClass` of a catalogue instance (None: not classified)."""
@@ -1137,7 +1305,10 @@ def run(chk, only=None):
                 "Plus: value models of the eigen-structured _solve overrides / BatchRepeat._cholesky_solve / 2-4-factor Kronecker loops on exact "
                 "rational primitive outputs (factor sizes 2x3, 3x2; thorough also 2x2, 1x3, 3x1, 3x3); decision-function cells: up to 3 (thorough 8) "
                 "instances per operator class x 8 settings x {solve, inv_quad} and cached-factor scenarios {none, cholesky, root} x {solve, inv_quad, "
-                "inv_quad_logdet} x {default, mc0} for Dense and AddedDiag")
+                "inv_quad_logdet} x {default, mc0} for Dense and AddedDiag; batch-broadcast cells: 12 (thorough 20) pairs of operator / rhs batch "
+                "shapes (size-1 dims, missing leading dims, non-broadcastable) x {Dense, Chol, Triangular, Diag, BatchRepeat, Kronecker solve/_solve} "
+                "+ left factors + 7 repeat layouts x BatchRepeat / Triangular(BatchRepeat) variants, spec = torch.linalg.solve on the expanded dense "
+                "tensors, model = Lean flat-buffer index maps (distinct = shapes x class x entry point)")
     chk.assumptions += [
         "floating point is not modelled: direct paths are compared at 1e-11 (f64; 1e-9 for the kappa~1e5 singular-factor instances) / 2e-3 (f32, incl. float64 data on an eigen path under a float32 symeig linalg dtype) relative to max|A^{-1}B|, CG cells by the mean relative "
         "residual <= 3*max(cg_tolerance, 1e-5), Lanczos-root cells (SumKronecker / Kronecker+Kronecker-const-diag above max_cholesky_size) at 1e-4",
@@ -1236,6 +1407,7 @@ def run(chk, only=None):
     formula_cases(chk, st, frng, only)
     eig_cases(chk, st, random.Random(f"C04:{chk.seed}:eig"), only)
     method_cases(chk, st, random.Random(f"C04:{chk.seed}:methodrng"), only)
+    bcast_cases(chk, st, random.Random(f"C04:{chk.seed}:bcast"), only)
     # ---------------- Lean driver ----------------
     outs = chk.run_driver("C04", st["lines"])
     if outs is not None:
@@ -1269,6 +1441,13 @@ def run(chk, only=None):
                     chk.traces_validated += 1
                 else:
                     chk.corr_break(cell + "/algorithm", f"library ran {exp or ['nothing']} but the Lean selection model predicts {model} (method {method}, size {size})", payload)
+            elif isinstance(exp, str):
+                if o == exp:
+                    chk.traces_validated += 1
+                else:
+                    chk.corr_break(cell, f"library raised a shape error but the Lean model returns a result ({o[:60]})", payload)
+            elif o == "shape-error":
+                chk.corr_break(cell, "the Lean model says the batch shapes do not broadcast but the library returned a result", payload)
             else:
                 got = torch.tensor(parse_mat(o), dtype=F64)
                 if got.shape == exp.shape and float((got - exp).abs().max()) <= 1e-9 * max(1.0, float(got.abs().max())):
